@@ -6,7 +6,9 @@
            __init__ (wild-card expansion, implicit deps), selected list / InvalidCommand(not_found) / CmdParseError,
            pos_arg_val;
       cli: DoitMain(ModuleTaskLoader(ns)).run(['run', ['--single'], *argv]) on a fresh directory and DB with a recording
-           reporter and recording actions: exit code, error class, set of tasks processed, tasks whose action ran,
+           reporter and recording actions (about a third of the runs with one of doit's own reporters -r json / zero /
+           executed-only / console / error-only instead: then only the recording actions are observed): exit code,
+           error class, set of tasks processed, tasks whose action ran,
            start order;
     each compared with the Lean model of the code as it is (`head`).
 (P) the Lean predicate `DoitModel.Sel.monitor` (the statement: exit 3 and nothing processed when the selection does not
@@ -56,7 +58,8 @@ META = {
                   'certificate closedB is still evaluated by the driver on every case. fnmatch is modelled for `*`, `?` and literals only; getopt for short clusters and '
                   'exact long names; delayed tasks only at the TaskControl tier; regex targets not modelled.',
     'rule': 'task sets of 1-5 creators (plain tasks, groups with 1-3 sub-tasks, targets some of which are spelled like '
-            'task names, names sharing prefixes, params/pos_arg, uptodate tasks, wild-card/setup/calc/implicit deps, '
+            'task names, names sharing prefixes, literal names made of glob metacharacters `[` `]` `?` (also in task_dep), '
+            'params/pos_arg, uptodate tasks, wild-card/setup/calc/implicit deps, '
             'acyclic) x argv of names, group names, sub-task names, targets, patterns matching 0..n names, unknown '
             'names (also ones made of format metacharacters `{}` `{0}` `%s` `%(x)s`), option tokens x default_tasks x '
             '--single; plus all argv of length <= 3 over a 9-token alphabet on '
@@ -148,9 +151,14 @@ def evaluate(cases, workdir, want_cli=True):
                 cli_ok = False
                 r['div'].append('cli: exit %s, model %s (%s)' % (cli['exit'], exp_exit, cli['error']))
             elif exp_exit == 0:
-                if sorted(cli['processed']) != sorted(head['closure']):
+                want = list(head['closure'])
+                if cli.get('actions_only'):
+                    # one of doit's own reporters: only tasks whose action runs are observed
+                    silent = set(t['name'] for t in sellib.model_tasks(case) if t['has_subtask'] or t['utd'])
+                    want = [n for n in want if n not in silent]
+                if sorted(cli['processed']) != sorted(want):
                     cli_ok = False
-                    r['div'].append('cli: processed %s, model closure %s' % (sorted(cli['processed']), sorted(head['closure'])))
+                    r['div'].append('cli: processed %s, model closure %s' % (sorted(cli['processed']), sorted(want)))
             else:
                 kind = head['sel'][:2] if head['sel'][0] == 'notFound' else head['sel'][:1]
                 if cli['error'] != kind:
@@ -195,6 +203,12 @@ def classify(case, m, st):
     st.count('source:%s' % ('argv' if case['argv'] else 'default_tasks' if case.get('default') is not None else 'all'))
     if case.get('single'):
         st.count('single')
+    st.count('reporter:%s' % (case.get('reporter') or 'recording') +
+             ('' if case.get('reporter') is None else '(%s)' % case.get('reporter_via')))
+    if any(ch in n for n in names for ch in '[]?'):
+        st.count('names-with-glob-metachars')
+    if any(ch in dep for t in sellib.flat_defs(case) for dep in (t[1].get('task_dep') or []) for ch in '[]?' if '*' not in dep):
+        st.count('task_dep-on-name-with-glob-metachars')
     for a in toks:
         if '*' in a:
             import fnmatch
@@ -255,6 +269,8 @@ def shrink_candidates(case):
         yield dict(c, default=None)
     if c.get('single'):
         yield dict(c, single=False)
+    if c.get('reporter') is not None:
+        yield dict(c, reporter=None)
     for i, t in enumerate(c['tasks']):
         c2 = json.loads(json.dumps(c))
         t2 = c2['tasks'].pop(i)
@@ -392,6 +408,9 @@ SMALL_SETS = [
     ([_t('mk', targets=['o1.out']), _t('use', file_dep=['o1.out']), _t('u', utd=True, setup=['mk'], task_dep=['use']),
       _t('c', calc_dep=['mk'], task_dep=['u*'])],
      ['mk', 'use', 'u', 'c', 'o1.out', 'u*', '*', 'mk?', 'mk{}']),
+    # literal names made of glob metacharacters, used in task_dep: only `*` makes a pattern
+    ([_t('c[1]'), _t('c1'), _t('c?'), _t('u', task_dep=['c[1]']), _t('v', task_dep=['c?'], setup=['c1'])],
+     ['u', 'v', 'c[1]', 'c?', 'c1', 'c*', 'c??*', '*', 'c[2]']),
 ]
 
 
@@ -405,6 +424,14 @@ def exhaustive_cases(maxlen, rng, sample=None):
         for dflt in ([], alphabet[:1], alphabet[1:3], [alphabet[3], alphabet[0]], ['nosuch']):
             for argv in ([], alphabet[2:3]):
                 out.append({'tasks': tasks, 'argv': argv, 'default': dflt, 'single': False})
+                out.append({'tasks': tasks, 'argv': argv, 'default': dflt, 'single': False, 'reporter': 'json',
+                            'reporter_via': 'config'})
+        # the order clause under doit's own reporters (start order from the recording actions)
+        for n in range(0, min(maxlen, 2) + 1):
+            for argv in itertools.product(alphabet, repeat=n):
+                for rep, via in (('json', 'short'), ('zero', 'config')):
+                    out.append({'tasks': tasks, 'argv': list(argv), 'default': None, 'single': False, 'reporter': rep,
+                                'reporter_via': via})
     if sample is not None and len(out) > sample:
         out = rng.sample(out, sample)
     return out
@@ -421,7 +448,7 @@ def run(ctx):
         cases.append(sellib.gen_case(random.Random(rng.getrandbits(64))))
     if ctx.tier == 'thorough':
         ex = exhaustive_cases(3, rng)
-        ctx.extra['exhaustive_small_scope'] = {'task_sets': len(SMALL_SETS), 'alphabet': 9, 'max_argv_len': 3,
+        ctx.extra['exhaustive_small_scope'] = {'task_sets': len(SMALL_SETS), 'alphabet': 9, 'max_argv_len': 3, 'reporters': ['recording', 'json', 'zero'],
                                                'cases': len(ex)}
     else:
         ex = exhaustive_cases(2, rng) + exhaustive_cases(3, rng, sample=500 * ctx.boost)
